@@ -26,6 +26,10 @@ claimed = {
    "Clock-driven simulation, exhaustive over the published tables × boundary dates: for every data/regimes/*.json table, category, rate key, dated value and tag-/extension-qualified variant, tax dates start−1, start, start+1, before-first-value and far-future (plus seeded dates in thorough) are realised by the simulated clock (local 00:00:00, 12:00:00 and 23:59:59 of the date in the regime's time zone, document without dates; one forward walk of ~30 simulated years per regime), by an explicit issue date and by an explicit value date. Oracle from the published JSON: latest start ≤ D among applicable values, a value taking effect on its start date, exempt keys give no percent, no applicable value is an error, unqualified values strictly descending, and the issue date written equals the regime-local date of the simulated instant.",
    "Oracle tables are the published JSON files, not the Go structs; ties between applicable values accept any of the tied values; the fake clock only moves forward from 2000-01-01, earlier dates are realised explicitly.",
    "deterministic simulation: fake clock walked through every rate-change boundary in each regime's time zone, oracle from published tables"),
+ "C07": ("fault_enumeration", "§5 C07",
+   "Only the clauses of C07 that have an I/O dimension are claimed: the canonicaliser consumes an io.Reader token by token. Stream-fault enumeration over every JSON text the system produces or publishes (corpus envelopes and documents, published regime/addon/schema files, a few literals): every chunking regime including 1-byte and zero-length reads must reproduce the whole-buffer result; the stream ending after n bytes for every n (exhaustive for texts ≤ 4 KiB in thorough, seeded offsets above) must be rejected unless the prefix is one complete value; a reader failing after n bytes must give an error, never output; trailing non-whitespace and empty streams are rejected without panic; transport re-encodings (member order, whitespace, escape style, null members added first/last, re-chunked) must give identical canonical bytes, equal to a reference canonicaliser written from c14n/README.md, and canonicalise to themselves. The sorting/number/escape tables over arbitrary JSON values are a pure function and are NOT decided by this check beyond those texts.",
+   "Texts are what the system itself serialises or ships plus a dozen literals; the reference canonicaliser does not assert floats with more than 15 significant digits nor the sign of zero.",
+   "deterministic stream-fault enumeration (chunking, torn EOF at every offset, read errors, trailing bytes, re-encoding) over a simulated reader, reference-canonicaliser oracle"),
 }
 na = {
  "C01": "pure function of the document: totals vs exact decimal arithmetic has no schedule, clock, fault or history in it (the only clock input, a missing issue date, enters no total)",
@@ -41,7 +45,6 @@ na = {
  "C20": "merge/negate laws and payment sums are algebra over values; 'operands unaltered' involves no schedule, clock or fault, so a history would only be input generation under another name",
 }
 pending = {
- "C07": "check under construction in this session (will be claimed; see DESIGN.md §5)",
  "C14": "check under construction in this session (will be claimed; see DESIGN.md §5)",
  "C15": "check under construction in this session (will be claimed; see DESIGN.md §5)",
 }
